@@ -55,7 +55,11 @@ impl VariableContext {
                         } else if let Some(default_value) =
                             variable_definition.default_value.as_ref()
                         {
-                            return (variable_name, default_value.clone().item.into());
+                            return (
+                                variable_name,
+                                NonConstantValue::from(default_value.clone().item)
+                                    .without_locations(),
+                            );
                         } else {
                             // TODO this is only valid if the arg is nullable, which we should
                             // validate
@@ -66,9 +70,10 @@ impl VariableContext {
 
                 // The argument may be a variable, or contain variables (in an object or a
                 // list). Each of them is replaced by the parent context's value for it.
+                // (Where the values were written does not matter, see into_key_and_value.)
                 let child_value = replace_variables(
                     // TODO avoid cloning
-                    matching_arg.item.value.item.clone(),
+                    matching_arg.item.value.item.clone().without_locations(),
                     &|variable_name| {
                         self.0
                             .get(&variable_name)
